@@ -111,6 +111,9 @@ func LoadDriver(repo, specDir string) (*Driver, error) {
 		return nil, err
 	}
 	d.chunks = splitChunks(d.spec.text)
+	for n := range d.spec.funcs {
+		preludeHas[n] = true
+	}
 	return d, nil
 }
 
@@ -276,9 +279,11 @@ func (d *Driver) GenVC(key string, safety bool, lockCheck bool) (fvc *FuncVC) {
 		env.vars[p.Name()] = args[i]
 	}
 	// global invariants hold at entry of every function except package init
-	if fn.Name() != "init" && !strings.HasPrefix(fn.Name(), "init#") {
+	if fn.Name() != "init" && !strings.HasPrefix(fn.Name(), "init#") && c != nil {
 		for _, gi := range d.cs.GlobalInvs {
-			vc.assume(ex.trBool(gi.Expr, env))
+			if contains(c.Assumes, gi.Label) {
+				vc.assume(ex.trBool(gi.Expr, env))
+			}
 		}
 	}
 	if c != nil {
@@ -398,7 +403,18 @@ func (d *Driver) QueryText(vc *VC, o *Obl) string {
 		body.WriteString("(get-value (" + strings.Join(terms, " ") + "))\n")
 	}
 	bs := body.String()
-	pre := d.preludeFor(bs)
+	// chunks forced by the contract of the function being verified
+	force := ""
+	if c, ok := d.cs.Funcs[vc.fn]; ok {
+		for _, u := range c.Uses {
+			for _, ch := range d.chunks {
+				if ch.name == u {
+					force += " " + strings.Join(ch.triggers, " ")
+				}
+			}
+		}
+	}
+	pre := d.preludeFor(bs + force)
 	pre = strings.Replace(pre, ";@@DATA@@\n", d.w.DataDecls(), 1)
 	return "(set-option :produce-models true)\n(set-logic ALL)\n" + pre + "; ---- VC for " + o.Name + "\n" + bs
 }
